@@ -494,7 +494,14 @@ class Scenario:
         self.step_leaf = rng.choice(self.wleaves) if self.wleaves else None
         self.step_val = fresh_value(rng, self.step_leaf[2], self.used) if self.step_leaf else None
         self.ops = []
-        kinds = ["set"] * 4 + ["read"] * 2 + ["assign"] * 4 + ["loop"] * 1
+        # top-level components of identical type can be exchanged by a literal that reads the variable it is assigned to:
+        # v = { .F0 = v.F1, .F1 = v.F0, .F2 = v.F2 } / v = [v[1], v[2], v[0]]  (seeds C18e / C01e: literal built in place)
+        comps = [t[2]] * t[1] if t[0] == "a" else list(t[1])
+        groups = {}
+        for i_, c_ in enumerate(comps): groups.setdefault(tstr(c_), []).append(i_)
+        self.perm_groups = [g_ for g_ in groups.values() if len(g_) >= 2]
+        self.ncomps = len(comps)
+        kinds = ["set"] * 4 + ["read"] * 2 + ["assign"] * 4 + ["loop"] * 1 + (["perm"] * 3 if self.perm_groups else [])
         if self.funcs: kinds += ["id"] * 2 + ["step"] * 2 + ["mk"] + (["incloop"] * 3 if self.inc_ok else [])
         for _ in range(nops):
             kd = rng.choice(kinds)
@@ -506,6 +513,15 @@ class Scenario:
                 self.ops.append(("set", dst, (path, kind, pn), val))
             elif kd == "read":
                 self.ops.append(("read", dst, self.leaves[0] if rng.random() < 0.6 else rng.choice(self.leaves)))
+            elif kd == "perm":
+                pm = list(range(self.ncomps))
+                for g_ in self.perm_groups:
+                    if rng.random() < 0.7:
+                        sh = g_[1:] + g_[:1] if rng.random() < 0.7 else list(reversed(g_))
+                        for a_, b_ in zip(g_, sh): pm[a_] = b_
+                if pm == list(range(self.ncomps)):
+                    g_ = self.perm_groups[0]; pm[g_[0]], pm[g_[1]] = g_[1], g_[0]
+                self.ops.append(("perm", dst, tuple(pm)))
             elif kd in ("assign", "id"):
                 self.ops.append((kd, dst, src))
             elif kd == "step":
@@ -616,6 +632,21 @@ class Scenario:
             elif kd == "assign":
                 _, dst, src = op
                 L.append("    %s = %s;" % (dst, src)); st[dst] = dict(st[src])
+            elif kd == "perm":
+                _, dst, pm = op
+                comp = (lambda i: "[%d]" % i) if self.is_arr else (lambda i: ".F%d" % i)
+                if self.is_arr: L.append("    %s = [%s];" % (dst, ", ".join(dst + comp(j) for j in pm)))
+                else: L.append("    %s = { %s };" % (dst, ", ".join(".F%d = %s%s" % (i, dst, comp(j)) for i, j in enumerate(pm))))
+                old_, new_ = st[dst], {}
+                for path in old_:
+                    for i, j in enumerate(pm):
+                        pre = "v" + comp(i)
+                        if path == pre or path.startswith(pre + ".") or path.startswith(pre + "["):
+                            new_[path] = old_["v" + comp(j) + path[len(pre):]]
+                            break
+                    else:
+                        new_[path] = old_[path]
+                st[dst] = new_
             elif kd == "id":
                 _, dst, src = op
                 L.append("    %s = id%d(%s);" % (dst, k, src)); st[dst] = dict(st[src])
@@ -669,6 +700,7 @@ class Scenario:
         if kd == "set": return "%s = %s" % (self.at(op[1], op[2][0]), op[3])
         if kd == "read": return "read " + self.at(op[1], op[2][0])
         if kd == "assign": return "%s = %s" % (op[1], op[2])
+        if kd == "perm": return "%s = literal reading %s with components %s" % (op[1], op[1], list(op[2]))
         if kd == "id": return "%s = id(%s)" % (op[1], op[2])
         if kd == "step": return "%s = step(%s)" % (op[1], op[2])
         if kd == "mk": return "%s = mk()" % op[1]
